@@ -62,7 +62,7 @@ func (l *smimeAIAContainsInternalNames) Execute(c *x509.Certificate) *lint.LintR
 	for _, u := range c.OCSPServer {
 		purl, err := url.Parse(u)
 		if err != nil {
-			return &lint.LintResult{Status: lint.Error}
+			return &lint.LintResult{Status: lint.Fatal, Details: "could not parse URL in AIA: " + err.Error()}
 		}
 
 		if net.ParseIP(purl.Host) != nil {
@@ -76,7 +76,7 @@ func (l *smimeAIAContainsInternalNames) Execute(c *x509.Certificate) *lint.LintR
 	for _, u := range c.IssuingCertificateURL {
 		purl, err := url.Parse(u)
 		if err != nil {
-			return &lint.LintResult{Status: lint.Error}
+			return &lint.LintResult{Status: lint.Fatal, Details: "could not parse URL in AIA: " + err.Error()}
 		}
 
 		if net.ParseIP(purl.Host) != nil {
